@@ -27,10 +27,10 @@
 
 _Static_assert(VP_DC_NCOORD == REF_DC_NCOORD, "spec must pass -DVP_DC_NCOORD = number of data collection coordinates of the JDF");
 static const int vals[NVAL][REF_NG] = { VALS };
-static REF_TP_T tps[NVAL];
-static TASK_T init_task[NVAL];
-static parsec_data_collection_t dcs[NVAL];
-static void *deps_arr[NVAL][8];
+static REF_TP_T the_tp, tp_zero;
+static TASK_T the_init_task, task_zero;
+static parsec_data_collection_t the_dc;
+static void *deps_arr[8];
 static int n_nonempty, n_remote;
 
 static int ref_count(const int *g, int *remote)
@@ -49,16 +49,17 @@ static int ref_count(const int *g, int *remote)
 static void one(int v)
 {
     const int *g = vals[v];
-    REF_TP_T *tp = &tps[v];
-    vp_dc_init(&dcs[v]);
-    dcs[v].myrank = MYRANK;
-    ref_set_globals(tp, g, &dcs[v]);
+    REF_TP_T *tp = &the_tp;
+    the_tp = tp_zero; the_init_task = task_zero; vp_repo_calls = 0;
+    vp_dc_init(&the_dc);
+    the_dc.myrank = MYRANK;
+    ref_set_globals(tp, g, &the_dc);
     tp->super.super.tdm.module = &vp_tdm.module;
-    tp->super.super.dependencies_array = deps_arr[v];
+    tp->super.super.dependencies_array = deps_arr;
     tp->sync_point = 1;
-    init_task[v].taskpool = (parsec_taskpool_t *)tp;
+    the_init_task.taskpool = (parsec_taskpool_t *)tp;
     vp_enable_calls = 0; vp_tdm_ready_calls = 0;
-    int rc = INIT_FN(NULL, &init_task[v]);
+    int rc = INIT_FN(NULL, &the_init_task);
     int remote = 0;
     int want = ref_count(g, &remote);
     if (want + remote > 0) n_nonempty++;
